@@ -66,5 +66,5 @@ CONF = dict(
                  'request quotes: a timestamp of a skipped or rejected datagram must not enter a measurement); a returned offset is that of an accepted exchange; a cookie in the pool '
                  'after a call comes from the pool before it, a key exchange, or a datagram that passed all of these'),
     timeout_quick=900, timeout_thorough=3000,
-    min_cases={'ip.hist': 480, 'scion.addrtype': 28, 'scion.allfail': 1, 'scion.allfailauth': 1, 'scion.auth': 160, 'scion.hist': 160, 'scion.nts': 38, 'scion.ntsauth': 40},
+    min_cases={'client.badlocal': 1, 'ip.hist': 480, 'ip.late': 12, 'ip.nofilter': 28, 'ip.servers': 64, 'ip6.hist': 12, 'scion.addrtype': 28, 'scion.allfail': 1, 'scion.allfailauth': 1, 'scion.auth': 160, 'scion.hist': 160, 'scion.late': 8, 'scion.lateauth': 3, 'scion.nofilter': 28, 'scion.nts': 38, 'scion.ntsauth': 40, 'scion.servers': 64},
 )
